@@ -191,7 +191,8 @@ def _mpsc_name(pid):
 C16 = {
     "pkg": "queue", "test": "TestVerifMPSC", "mc_module": "MPSC", "judge": "MPSCHist",
     "mc_instances": lambda quick: ([("p2n2", _mpsc_cfg(2, 2, 2, 4)), ("p1n6", _mpsc_cfg(1, 6, 2, 4, True)), ("p2n2c4", _mpsc_cfg(2, 2, 4, 4))] if quick else
-                                   [("p2n3", _mpsc_cfg(2, 3, 2, 4)), ("p3n2", _mpsc_cfg(3, 2, 2, 4)), ("p2n2_8", _mpsc_cfg(2, 2, 2, 8)), ("p1n6", _mpsc_cfg(1, 6, 2, 4, True))]),
+                                   [("p2n3", _mpsc_cfg(2, 3, 2, 4)), ("p3n1", _mpsc_cfg(3, 1, 2, 4)), ("p2n2_8", _mpsc_cfg(2, 2, 2, 8)), ("p2n3c4", _mpsc_cfg(2, 3, 4, 4)),
+                                    ("p1n6", _mpsc_cfg(1, 6, 2, 4, True))]),
     "sim_instances": lambda quick: [
         ("s23", _mpsc_cfg(2, 3, 2, 4), 40 if quick else 400, {"producers": 2, "npush": 3, "initcap": 2, "maxcap": 4}, _mpsc_name, _mpsc_hook),
         ("s32", _mpsc_cfg(3, 2, 2, 4), 30 if quick else 300, {"producers": 3, "npush": 2, "initcap": 2, "maxcap": 4}, _mpsc_name, _mpsc_hook),
